@@ -41,3 +41,721 @@ Proof.
     rewrite (simplexWithFaces_respects r r2 fs Hs), (Hswf E1).
     destruct (length fs - 1) as [|k'] eqn:Ek; [lia|]. eexists. eexists. reflexivity.
 Qed.
+
+Lemma sOO_nodup r j : pinv r -> NoDup (simplicesOfOrder r j).
+Proof.
+  intros P. unfold simplicesOfOrder. destruct (j <? r_nord r) eqn:E; [|constructor].
+  apply pinv_nodup_order; [exact P | now apply Nat.ltb_lt].
+Qed.
+
+(* ---------- the facets of a set of points all of whose facets are carried ---------- *)
+Definition drop (x : name) (B : list name) : list name := filter (fun y => negb (name_eqb x y)) B.
+
+Section Facets.
+  Variable r : rep.
+  Hypothesis Hv : vinv r.
+  Let HS : sinv r := c_s r (b_c r (v_b r Hv)).
+  Let P : pinv r := s_p r HS.
+  Variable k : nat.
+  Variable B : list name.
+  Hypothesis HB : NoDup B.
+  Hypothesis LB : length B = S (S (S k)).
+  Hypothesis Hfac : forall x, In x B -> exists f, containsSimplex r f = true /\ sameset (basisOf r f) (drop x B).
+
+  Definition facets : list name := filter (fun s => subsetn (basisOf r s) B) (simplicesOfOrder r (S k)).
+
+  Lemma F_in f : In f facets <-> In f (simplicesOfOrder r (S k)) /\ incl (basisOf r f) B.
+  Proof. unfold facets. rewrite filter_In, subsetn_incl. tauto. Qed.
+
+  Lemma F_nodup : NoDup facets.
+  Proof. apply NoDup_filter. apply sOO_nodup. exact P. Qed.
+
+  Lemma listed_assoc f j0 : In f (simplicesOfOrder r j0) -> exists j, assoc f (r_simp r) = Some (j0, j).
+  Proof.
+    intros H. rewrite simplicesOfOrder_idxk in H by exact P. apply In_nth_error in H. destruct H as (j & Hj). exists j.
+    destruct P as [K Pm St L]. apply Pm. split; [|exact Hj].
+    destruct (Nat.lt_ge_cases j0 (r_nord r)) as [Hl|Hl]; [exact Hl|]. rewrite (St j0 Hl) in Hj. destruct j; discriminate.
+  Qed.
+
+  Lemma F_ord f : In f facets -> exists j, assoc f (r_simp r) = Some (S k, j).
+  Proof. intros H. apply F_in in H. now apply listed_assoc. Qed.
+
+  Lemma F_contains f : In f facets -> containsSimplex r f = true.
+  Proof. intros H. destruct (F_ord f H) as (j & A). unfold containsSimplex. now rewrite A. Qed.
+
+  Lemma F_missed f : In f facets -> exists m, In m B /\ forall x, In x (basisOf r f) <-> In x B /\ x <> m.
+  Proof.
+    intros Hf. pose proof Hf as Hf'. apply F_in in Hf'. destruct Hf' as [_ Hi]. destruct (F_ord f Hf) as (j & A).
+    destruct (one_short (basisOf r f) B) as (m & Hm & Nm & Hall); auto.
+    - apply basis_nodup; exact P.
+    - rewrite (v_card r Hv f (S k) j A). exact LB.
+    - exists m. split; [exact Hm|]. intros x. split.
+      + intros Hx. split; [now apply Hi|]. intros ->. contradiction.
+      + intros [Hx Nx]. destruct (Hall x Hx); [contradiction|assumption].
+  Qed.
+
+  Lemma In_drop x z : In z (drop x B) <-> In z B /\ z <> x.
+  Proof. unfold drop. apply In_filter_neq. Qed.
+
+  Lemma F_facet x : In x B -> exists f, In f facets /\ forall z, In z (basisOf r f) <-> In z B /\ z <> x.
+  Proof.
+    intros Hx. destruct (Hfac x Hx) as (f & Cf & Sf). exists f.
+    assert (C : forall z, In z (basisOf r f) <-> In z B /\ z <> x) by (intros z; rewrite (Sf z); apply In_drop).
+    split; [|exact C]. apply F_in. split; [|intros z Hz; apply C in Hz; tauto].
+    apply contains_assoc in Cf. destruct Cf as (kf & j & A).
+    assert (kf = S k).
+    { pose proof (v_card r Hv f kf j A) as Lc.
+      rewrite (NoDup_same_length (basisOf r f) (drop x B)) in Lc; [|apply basis_nodup; exact P|now apply NoDup_filter|exact Sf].
+      pose proof (filter_neq_length x B HB Hx) as L. fold (drop x B) in L. lia. }
+    subst kf. eapply order_listed; eauto.
+  Qed.
+
+  Lemma F_same_missed f f' m : In f facets -> In f' facets ->
+    (forall x, In x (basisOf r f) <-> In x B /\ x <> m) -> (forall x, In x (basisOf r f') <-> In x B /\ x <> m) -> f = f'.
+  Proof.
+    intros Hf Hf' C C'. apply (v_uniq r Hv); try now apply F_contains.
+    intros x. rewrite C, C'. tauto.
+  Qed.
+
+  Lemma F_length : length facets = S (S (S k)).
+  Proof.
+    apply Nat.le_antisymm.
+    - rewrite <- LB.
+      apply (pigeon (fun f m => In m B /\ forall x, In x (basisOf r f) <-> In x B /\ x <> m)); [exact F_nodup| |].
+      + intros f Hf. destruct (F_missed f Hf) as (m & Hm & C). exists m. auto.
+      + intros f f' m Hf Hf' [_ C] [_ C']. eapply F_same_missed; eauto.
+    - rewrite <- LB.
+      apply (pigeon (fun x f => forall z, In z (basisOf r f) <-> In z B /\ z <> x)); [exact HB| |].
+      + intros x Hx. destruct (F_facet x Hx) as (f & Hf & C). exists f. auto.
+      + intros x x' f Hx Hx' C C'. destruct (name_eq_dec x x') as [E|E]; [exact E|]. exfalso.
+        assert (In x (basisOf r f)) by (apply C'; auto). apply C in H. tauto.
+  Qed.
+
+  (* every simplex is a face of none or of exactly two of the facets *)
+  Lemma F_closed w : parity (map (fun f => memn w (faces r f)) facets) = false.
+  Proof.
+    rewrite parity_count, count_map.
+    destruct (filter (fun f => memn w (faces r f)) facets) as [|f0 G'] eqn:EG; [reflexivity|].
+    assert (InG : forall f, In f (f0 :: G') <-> In f facets /\ In w (faces r f)).
+    { intros f. rewrite <- EG, filter_In, memn_In. reflexivity. }
+    assert (NG : NoDup (f0 :: G')) by (rewrite <- EG; apply NoDup_filter; exact F_nodup).
+    destruct (proj1 (InG f0) (or_introl eq_refl)) as [Hf0 Hw0].
+    destruct (F_ord f0 Hf0) as (j0 & A0). destruct (F_missed f0 Hf0) as (m0 & Hm0 & C0).
+    destruct (face_basis_char r Hv f0 k j0 w A0 Hw0) as (p & Hp & Cw).
+    destruct (face_is_simplex r HS f0 w k j0 A0 Hw0) as (iw & Aw).
+    assert (HpB : In p B) by (apply C0 in Hp; tauto).
+    assert (Npm : p <> m0) by (apply C0 in Hp; tauto).
+    destruct (F_facet p HpB) as (fb & Hfb & Cb). destruct (F_ord fb Hfb) as (jb & Ab).
+    assert (Cw' : forall z, In z (basisOf r w) <-> In z B /\ z <> m0 /\ z <> p).
+    { intros z. rewrite Cw, C0. tauto. }
+    assert (Hwb : In w (faces r fb)).
+    { destruct (subsets_are_simplices r Hv 1 fb (S k) jb (basisOf r w) Ab) as (u & Cu & Su & (u' & Hu' & Eu)).
+      - apply basis_nodup; exact P.
+      - intros z Hz. apply Cb. apply Cw' in Hz. tauto.
+      - rewrite (v_card r Hv w k iw Aw). lia.
+      - pose proof (v_card r Hv w k iw Aw) as L. destruct (basisOf r w); [discriminate|congruence].
+      - simpl in Eu. subst u'. assert (u = w); [|now subst]. apply (v_uniq r Hv); auto. unfold containsSimplex. now rewrite Aw. }
+    assert (Nfb : f0 <> fb). { intros ->. apply Cb in Hp. tauto. }
+    assert (SG : forall f, In f (f0 :: G') <-> In f [f0; fb]).
+    { intros f. split.
+      - intros Hf. apply InG in Hf. destruct Hf as [Hf Hwf]. destruct (F_ord f Hf) as (jf & Af).
+        destruct (F_missed f Hf) as (m & Hm & C).
+        pose proof (face_basis_sub r Hv f k jf w Af Hwf) as Sub.
+        assert (Nmw : ~ In m (basisOf r w)) by (intros H; apply Sub in H; apply C in H; tauto).
+        destruct (name_eq_dec m m0) as [->|N0]; [left; eapply F_same_missed; eauto|].
+        destruct (name_eq_dec m p) as [->|Np]; [right; left; eapply F_same_missed; eauto|].
+        exfalso. apply Nmw. apply Cw'. auto.
+      - intros [<-|[<-|[]]]; [now left|]. apply InG. auto. }
+    rewrite (NoDup_same_length (f0 :: G') [f0; fb] NG); [reflexivity| |exact SG].
+    constructor; [intros [E|[]]; congruence | constructor; [intros [] | constructor]].
+  Qed.
+End Facets.
+
+(* ---------- from sets of simplices to combinations of indices ---------- *)
+Lemma filter_in_combs {A} (p : A -> bool) : forall l, In (filter p l) (combs (length (filter p l)) l).
+Proof.
+  induction l as [|x t IH]; simpl; [now left|].
+  destruct (p x) eqn:E; simpl.
+  - apply in_or_app. left. apply in_map. exact IH.
+  - destruct (length (filter p t)) as [|n] eqn:L.
+    + destruct (filter p t); [now left | discriminate].
+    + apply in_or_app. right. exact IH.
+Qed.
+
+Lemma map_nth_filter_seq (p : name -> bool) (l : list name) d :
+  map (fun i => nth i l d) (filter (fun i => p (nth i l d)) (seq 0 (length l))) = filter p l.
+Proof.
+  rewrite <- (filter_map_fst (fun i => nth i l d) p). f_equal.
+  rewrite (map_nth_seq (fun x => x) d l). apply map_id.
+Qed.
+
+(* ---------- simplexWithFaces: total on faces of one order, and what Some means ---------- *)
+Lemma all_orders_ok r k fs : (forall f, In f fs -> exists j, assoc f (r_simp r) = Some (k, j)) ->
+  all_orders r fs = Ok (repeat k (length fs)).
+Proof.
+  induction fs as [|f t IH]; intros H; [reflexivity|]. cbn [all_orders]. unfold orderOf.
+  destruct (H f (or_introl eq_refl)) as (j & A). rewrite A. rewrite IH; [reflexivity|]. intros g Hg. apply H. now right.
+Qed.
+
+Lemma swf_total r fs : 2 <= length fs ->
+  (forall f, In f fs -> exists j, assoc f (r_simp r) = Some (length fs - 1 - 1, j)) ->
+  simplexWithFaces r fs =
+  Ok (last (map Some (filter (fun s => seteq (faces r s) fs) (simplicesOfOrder r (length fs - 1)))) None).
+Proof.
+  intros Hl H. unfold simplexWithFaces.
+  replace (length fs <=? 1) with false by (symmetry; apply Nat.leb_gt; lia).
+  rewrite (all_orders_ok r _ fs H).
+  replace (forallb (fun o => o =? length fs - 1 - 1) (repeat (length fs - 1 - 1) (length fs))) with true; [reflexivity|].
+  symmetry. apply forallb_forall. intros o Ho. apply repeat_spec in Ho. subst. apply Nat.eqb_refl.
+Qed.
+
+Lemma last_Some_In {A} (l : list A) q : last (map Some l) None = Some q -> In q l.
+Proof.
+  induction l as [|a t IH]; [discriminate|]. destruct t as [|b t'].
+  - simpl. intros H. injection H as ->. now left.
+  - intros H. right. apply IH. exact H.
+Qed.
+
+Lemma swf_some r fs q : simplexWithFaces r fs = Ok (Some q) ->
+  In q (simplicesOfOrder r (length fs - 1)) /\ seteq (faces r q) fs = true.
+Proof.
+  unfold simplexWithFaces. intros H. destruct (length fs <=? 1); [discriminate|].
+  destruct (all_orders r fs) as [os|e]; [|discriminate].
+  destruct (forallb (fun o => o =? length fs - 1 - 1) os); [|discriminate].
+  injection H as H. apply last_Some_In in H. apply filter_In in H. exact H.
+Qed.
+
+(* ---------- nss bookkeeping ---------- *)
+Definition registered (nss : nssT) (k i : nat) : Prop := exists s, nss_get k nss = Some s /\ In i s.
+
+Lemma nss_get_add_same k i nss : registered (nss_add k i nss) k i.
+Proof.
+  unfold registered. induction nss as [|[k' s] t IH]; simpl.
+  - rewrite Nat.eqb_refl. exists [i]. split; [reflexivity | now left].
+  - destruct (k =? k') eqn:E; simpl; rewrite E.
+    + destruct (existsb (Nat.eqb i) s) eqn:Ex.
+      * exists s. split; [reflexivity|]. apply existsb_exists in Ex. destruct Ex as (x & Hx & Ei). apply Nat.eqb_eq in Ei. now subst.
+      * exists (s ++ [i]). split; [reflexivity|]. apply in_or_app. right. now left.
+    + exact IH.
+Qed.
+
+Lemma nss_get_add_keep k i nss j x : registered nss j x -> registered (nss_add k i nss) j x.
+Proof.
+  unfold registered. induction nss as [|[k' s] t IH]; simpl; intros (s0 & G & Hin); [discriminate|].
+  destruct (j =? k') eqn:Ej.
+  - injection G as <-. destruct (k =? k') eqn:E; simpl; rewrite Ej.
+    + destruct (existsb (Nat.eqb i) s); [exists s; auto|]. exists (s ++ [i]). split; [reflexivity|]. apply in_or_app. now left.
+    + exists s. auto.
+  - destruct (k =? k') eqn:E; simpl; rewrite Ej.
+    + exists s0. auto.
+    + apply IH. exists s0. auto.
+Qed.
+
+Lemma nss_get_app_new nss k : nss_get k nss = None -> forall j x, registered nss j x -> registered (nss ++ [(k, [])]) j x.
+Proof.
+  intros _ j x (s & G & Hin). exists s. split; [|exact Hin].
+  induction nss as [|[k' s'] t IH]; simpl in *; [discriminate|]. destruct (j =? k'); auto.
+Qed.
+
+Lemma nss_add_key k i nss j : nss_get j nss <> None -> nss_get j (nss_add k i nss) <> None.
+Proof.
+  induction nss as [|[k' s] t IH]; simpl; intros H; [congruence|].
+  destruct (k =? k') eqn:E; simpl; destruct (j =? k') eqn:Ej; try congruence. now apply IH.
+Qed.
+
+(* ---------- one step of the fold of cps_order, as a function ---------- *)
+Definition cps_step (bnd : mat) (k : nat) (newk1 : list nat) (acc : rep * nssT * nat * res unit) (fs : list nat)
+  : rep * nssT * nat * res unit :=
+  match acc with
+  | (r', nss', maxk', Raise e) => acc
+  | (r', nss', maxk', Ok _) =>
+      if existsb (fun i => existsb (Nat.eqb i) newk1) fs && isClosed bnd fs then
+        let cfs := map (fun i => nth i (simplicesOfOrder r' (k - 1)) (NInt 0)) fs in
+        match c_simplexWithFaces r' cfs with
+        | Raise e => (r', nss', maxk', Raise e)
+        | Ok (Some _) => acc
+        | Ok None =>
+            match addSimplex r' cfs None None with
+            | (r'', Raise e) => (r'', nss', maxk', Raise e)
+            | (r'', Ok s) =>
+                match indexOf r'' s with
+                | Raise e => (r'', nss', maxk', Raise e)
+                | Ok i => (r'', nss_add k i nss', Nat.max maxk' k, Ok tt)
+                end
+            end
+        end
+      else acc
+  end.
+
+Lemma cps_order_fold r k newk1 nss maxk :
+  cps_order r k newk1 nss maxk =
+  fold_left (cps_step (boundaryOperator r (k - 1)) k newk1)
+            (combs (S k) (seq 0 (length (simplicesOfOrder r (k - 1))))) (r, nss, maxk, Ok tt).
+Proof. reflexivity. Qed.
+
+Record cinvK (r : rep) (k0 : nat) (nss0 : nssT) (maxk0 : nat) (done : list (list nat)) (ra : rep) (nsa : nssT) (ma : nat) : Prop := {
+  ck_fl : fl r ra (S k0);
+  ck_done : forall fs, In fs done -> isClosed (boundaryOperator r (S k0)) fs = true ->
+            exists s, containsSimplex ra s = true /\ sameset (faces ra s) (cfs_of r k0 fs);
+  ck_ord : forall s o j, assoc s (r_simp ra) = Some (o, j) -> o <= ma;
+  ck_reg : forall i, i < length (simplicesOfOrder ra (S (S k0))) -> registered nsa (S (S k0)) i;
+  ck_key : nss_get (S (S k0)) nsa <> None;
+  ck_oth : forall j x, j <> S (S k0) -> registered nss0 j x -> registered nsa j x;
+  ck_lst : forall j, j <> S (S k0) -> simplicesOfOrder ra j = simplicesOfOrder r j;
+  ck_max : ma = maxk0 \/ (ma = Nat.max maxk0 (S (S k0)) /\ exists s j, assoc s (r_simp ra) = Some (S (S k0), j)) }.
+
+Lemma nth_error_snoc_last {A} (l : list A) x : nth_error (l ++ [x]) (length l) = Some x.
+Proof. rewrite nth_error_app2 by lia. now rewrite Nat.sub_diag. Qed.
+
+Lemma cps_step_ok r k0 newk1 nss0 maxk0 done ra nsa ma fs : vinv r ->
+  (forall i, i < length (simplicesOfOrder r (S k0)) -> In i newk1) ->
+  cinvK r k0 nss0 maxk0 done ra nsa ma ->
+  In fs (combs (S (S (S k0))) (seq 0 (length (simplicesOfOrder r (S k0))))) ->
+  exists rb nsb mb,
+    cps_step (boundaryOperator r (S k0)) (S (S k0)) newk1 (ra, nsa, ma, Ok tt) fs = (rb, nsb, mb, Ok tt) /\
+    cinvK r k0 nss0 maxk0 (done ++ [fs]) rb nsb mb.
+Proof.
+  intros Hv Hnew [Fl Dn Od Rg Ky Ot Ls Mx] Hfs.
+  pose proof Fl as [Va Ea La Ba].
+  pose proof (c_s r (b_c r (v_b r Hv))) as HS. pose proof (s_p r HS) as P.
+  pose proof (c_s ra (b_c ra (v_b ra Va))) as HSa. pose proof (s_p ra HSa) as Pa.
+  pose proof (combs_length _ _ _ Hfs) as Lfs.
+  destruct (combs_sub _ _ _ Hfs) as [Ifs Nfs]. specialize (Nfs (seq_NoDup _ _)).
+  assert (Hj : forall j, In j fs -> j < length (simplicesOfOrder r (S k0))).
+  { intros j Hin. apply Ifs in Hin. apply in_seq in Hin. lia. }
+  unfold cps_step.
+  assert (Enew : existsb (fun i => existsb (Nat.eqb i) newk1) fs = true).
+  { destruct fs as [|j0 t]; [discriminate|]. apply existsb_exists. exists j0. split; [now left|].
+    apply existsb_exists. exists j0. split; [apply Hnew; apply Hj; now left | apply Nat.eqb_refl]. }
+  rewrite Enew. cbn [andb].
+  destruct (isClosed (boundaryOperator r (S k0)) fs) eqn:Ecl.
+  2: { exists ra, nsa, ma. split; [reflexivity|]. constructor; auto.
+       intros fs' Hin Hc. apply in_app_or in Hin. destruct Hin as [Hin|[<-|[]]]; [now apply Dn | congruence]. }
+  replace (S (S k0) - 1) with (S k0) by lia. cbv zeta. rewrite La.
+  fold (cfs_of r k0 fs). set (cfs := cfs_of r k0 fs).
+  assert (Hk : S k0 < r_nord r).
+  { destruct fs as [|j0 t]; [discriminate|]. specialize (Hj j0 (or_introl eq_refl)).
+    unfold simplicesOfOrder in Hj. destruct (S k0 <? r_nord r) eqn:E; [now apply Nat.ltb_lt in E | simpl in Hj; lia]. }
+  assert (Hcfs : forall f, In f cfs -> exists j, assoc f (r_simp r) = Some (S k0, j)).
+  { intros f Hf. apply in_map_iff in Hf. destruct Hf as (j & <- & Hin). exists j.
+    destruct P as [K Pm St L]. apply Pm. split; [exact Hk|].
+    rewrite <- simplicesOfOrder_idxk by (constructor; auto). apply List.nth_error_nth'. now apply Hj. }
+  assert (Hold : forall f, In f cfs -> containsSimplex r f = true).
+  { intros f Hf. destruct (Hcfs f Hf) as (j & A). unfold containsSimplex. now rewrite A. }
+  assert (Hcfsa : forall f, In f cfs -> exists j, assoc f (r_simp ra) = Some (S k0, j)).
+  { intros f Hf. destruct (Hcfs f Hf) as (j & A). destruct (e_old r ra Ea f (Hold f Hf)) as (C & O & _).
+    unfold orderOf in O. rewrite A in O. destruct (assoc f (r_simp ra)) as [[ko jo]|]; [|discriminate].
+    injection O as ->. now exists jo. }
+  assert (Ncfs : NoDup cfs).
+  { apply NoDup_map_nth; auto. apply sOO_nodup. exact P. }
+  assert (Lcfs : length cfs = S (S (S k0))) by (unfold cfs, cfs_of; now rewrite map_length).
+  assert (Hcfsa' : forall f, In f cfs -> exists j, assoc f (r_simp ra) = Some (length cfs - 1 - 1, j)).
+  { replace (length cfs - 1 - 1) with (S k0) by lia. exact Hcfsa. }
+  unfold c_simplexWithFaces. rewrite (swf_total ra cfs); [|lia|exact Hcfsa'].
+  destruct (last (map Some (filter (fun s => seteq (faces ra s) cfs) (simplicesOfOrder ra (length cfs - 1)))) None)
+    as [q|] eqn:Eswf.
+  - (* already there *)
+    exists ra, nsa, ma. split; [reflexivity|]. constructor; auto.
+    intros fs' Hin Hc. apply in_app_or in Hin. destruct Hin as [Hin|[<-|[]]]; [now apply Dn|].
+    apply last_Some_In in Eswf. apply filter_In in Eswf. destruct Eswf as [Hq Sq].
+    exists q. split; [|now apply seteq_sameset].
+    rewrite Lcfs in Hq. simpl in Hq.
+    destruct (listed_assoc ra Va q (S (S k0))) as (jq & Aq); [exact Hq|]. unfold containsSimplex. now rewrite Aq.
+  - (* a new simplex *)
+    assert (Hswf : simplexWithFaces ra cfs = Ok None).
+    { rewrite (swf_total ra cfs); [now rewrite Eswf|lia|exact Hcfsa']. }
+    destruct (addSimplex_succeeds ra cfs Ncfs) as (rb & s & Hadd).
+    + lia.
+    + rewrite Lcfs. simpl.
+      assert (E : exists f, In f cfs) by (destruct cfs as [|f t]; [discriminate|exists f; now left]).
+      destruct E as (f & Hf). destruct (Hcfsa f Hf) as (j & A). destruct Pa as [K Pm St L]. apply Pm in A. lia.
+    + exact Hcfsa'.
+    + intros _. exact Hswf.
+    + rewrite Hadd.
+      destruct (addSimplex_effect ra cfs None None rb s HSa Hadd) as (Hnc & _ & Ho & Hf & Hold' & Hall).
+      assert (Flb : fl r rb (S k0)).
+      { eapply (fl_step r k0 ra fs rb (Ok s)); eauto.
+        - unfold c_simplexWithFaces. rewrite La. exact Hswf.
+        - rewrite La. exact Hadd. }
+      pose proof Flb as [Vb Eb Lb Bb].
+      pose proof (s_p rb (c_s rb (b_c rb (v_b rb Vb)))) as Pb.
+      pose proof (addSimplex_listing ra cfs None None rb s HSa Hadd) as Lst. rewrite Lcfs in Lst. simpl in Lst.
+      assert (As : exists i, assoc s (r_simp rb) = Some (S (S k0), i)).
+      { unfold orderOf in Ho. rewrite Lcfs in Ho. simpl in Ho.
+        destruct (assoc s (r_simp rb)) as [[o i]|]; [|discriminate]. injection Ho as ->. now exists i. }
+      destruct As as (i & As).
+      assert (Ei : i = length (simplicesOfOrder ra (S (S k0)))).
+      { pose proof Pb as [K Pm St L]. pose proof (proj1 (Pm s _ i) As) as [_ Hi].
+        rewrite <- simplicesOfOrder_idxk in Hi by exact Pb. rewrite (Lst (S (S k0))), Nat.eqb_refl in Hi.
+        assert (Nl : NoDup (simplicesOfOrder ra (S (S k0)) ++ [s])).
+        { pose proof (Lst (S (S k0))) as E. rewrite Nat.eqb_refl in E. rewrite <- E. apply sOO_nodup. exact Pb. }
+        apply (proj1 (NoDup_nth_error _) Nl).
+        - apply nth_error_Some. congruence.
+        - rewrite Hi. symmetry. apply nth_error_snoc_last. }
+      unfold indexOf. rewrite As.
+      exists rb, (nss_add (S (S k0)) i nsa), (Nat.max ma (S (S k0))). split; [reflexivity|].
+      constructor.
+      * exact Flb.
+      * intros fs' Hin Hc. apply in_app_or in Hin. destruct Hin as [Hin|[<-|[]]].
+        -- destruct (Dn fs' Hin Hc) as (s' & Cs' & Ss'). exists s'. destruct (Hold' s' Cs') as (_ & _ & F & _).
+           split; [rewrite Hall, Cs'; reflexivity|]. now rewrite F.
+        -- exists s. split; [rewrite Hall, name_eqb_refl; apply orb_true_r | exact Hf].
+      * intros s' o j A'. assert (C' : containsSimplex rb s' = true) by (unfold containsSimplex; now rewrite A').
+        rewrite Hall in C'. apply orb_prop in C'. destruct C' as [C'|C'].
+        -- destruct (Hold' s' C') as (O' & _). unfold orderOf in O'. rewrite A' in O'.
+           destruct (assoc s' (r_simp ra)) as [[o' j']|] eqn:A''; [|discriminate]. injection O' as ->.
+           pose proof (Od s' o' j' A''). lia.
+        -- apply name_eqb_eq in C'. subst s'. rewrite As in A'. injection A' as <- _. lia.
+      * intros i' Hi'. rewrite (Lst (S (S k0))), Nat.eqb_refl, app_length in Hi'. simpl in Hi'.
+        destruct (Nat.eq_dec i' i) as [->|Ne]; [apply nss_get_add_same|].
+        apply nss_get_add_keep. apply Rg. lia.
+      * now apply nss_add_key.
+      * intros j x Hjn Hr. apply nss_get_add_keep. now apply Ot.
+      * intros j Hjn. rewrite (Lst j). replace (j =? S (S k0)) with false by (symmetry; now apply Nat.eqb_neq). now apply Ls.
+      * right. split; [destruct Mx as [->|[-> _]]; lia | exists s, i; exact As].
+Qed.
+
+Lemma cps_fold_ok r k0 newk1 nss0 maxk0 : vinv r ->
+  (forall i, i < length (simplicesOfOrder r (S k0)) -> In i newk1) ->
+  forall L0 done ra nsa ma,
+  (forall fs, In fs L0 -> In fs (combs (S (S (S k0))) (seq 0 (length (simplicesOfOrder r (S k0)))))) ->
+  cinvK r k0 nss0 maxk0 done ra nsa ma ->
+  exists r' nss' maxk',
+    fold_left (cps_step (boundaryOperator r (S k0)) (S (S k0)) newk1) L0 (ra, nsa, ma, Ok tt) = (r', nss', maxk', Ok tt) /\
+    cinvK r k0 nss0 maxk0 (done ++ L0) r' nss' maxk'.
+Proof.
+  intros Hv Hnew. induction L0 as [|fs L0 IH]; intros done ra nsa ma HL Hc.
+  - exists ra, nsa, ma. split; [reflexivity|]. now rewrite app_nil_r.
+  - destruct (cps_step_ok r k0 newk1 nss0 maxk0 done ra nsa ma fs Hv Hnew Hc (HL fs (or_introl eq_refl))) as (rb & nsb & mb & E & Hc').
+    destruct (IH (done ++ [fs]) rb nsb mb (fun f H => HL f (or_intror H)) Hc') as (r' & nss' & maxk' & E' & Hc'').
+    exists r', nss', maxk'. split; [cbn [fold_left]; rewrite E; exact E'|]. now rewrite <- app_assoc in Hc''.
+Qed.
+
+Theorem cps_order_complete r k0 newk1 nss1 maxk : vinv r ->
+  (forall i, i < length (simplicesOfOrder r (S k0)) -> In i newk1) ->
+  (forall s o j, assoc s (r_simp r) = Some (o, j) -> o <= maxk) ->
+  (forall i, i < length (simplicesOfOrder r (S (S k0))) -> registered nss1 (S (S k0)) i) ->
+  nss_get (S (S k0)) nss1 <> None ->
+  exists r' nss' maxk',
+    cps_order r (S (S k0)) newk1 nss1 maxk = (r', nss', maxk', Ok tt) /\
+    cinvK r k0 nss1 maxk (combs (S (S (S k0))) (seq 0 (length (simplicesOfOrder r (S k0))))) r' nss' maxk'.
+Proof.
+  intros Hv Hnew Hord Hreg Hkey. rewrite cps_order_fold. replace (S (S k0) - 1) with (S k0) by lia.
+  apply (cps_fold_ok r k0 newk1 nss1 maxk Hv Hnew _ [] r nss1 maxk); [auto|].
+  constructor; auto.
+  - constructor; [exact Hv | apply ext2_refl; exact (c_s r (b_c r (v_b r Hv))) | reflexivity | reflexivity].
+  - intros fs [].
+Qed.
+
+(* ---------- cliques and what carries them ---------- *)
+Definition clique (r : rep) (B : list name) : Prop := forall p q, In p B -> In q B -> p <> q -> edge_of r p q.
+Definition carried (r : rep) (B : list name) : Prop := exists t, containsSimplex r t = true /\ sameset (basisOf r t) B.
+Definition complete_at (r : rep) (n : nat) : Prop :=
+  forall B, NoDup B -> length B = n -> clique r B -> carried r B.
+
+Lemma ext2b_edges_fwd r r' p q : vinv r -> vinv r' -> ext2b r r' -> edge_of r p q -> edge_of r' p q.
+Proof.
+  intros Hv Hv' [E Bs] (e & He & Se).
+  pose proof (s_p r' (c_s r' (b_c r' (v_b r' Hv')))) as P'.
+  destruct (listed_assoc r Hv e 1 He) as (j & A).
+  assert (Ce : containsSimplex r e = true) by (unfold containsSimplex; now rewrite A).
+  destruct (e_old r r' E e Ce) as (Ce' & O & _). unfold orderOf in O. rewrite A in O.
+  destruct (assoc e (r_simp r')) as [[o' j']|] eqn:A'; [|discriminate]. injection O as ->.
+  exists e. split; [eapply order_listed; eauto|]. rewrite (Bs e Ce). exact Se.
+Qed.
+
+Lemma carried_ext r r' B : ext2b r r' -> carried r B -> carried r' B.
+Proof.
+  intros [E Bs] (t & Ct & St). destruct (e_old r r' E t Ct) as (Ct' & _). exists t. split; [exact Ct'|].
+  rewrite (Bs t Ct). exact St.
+Qed.
+
+Lemma drop_clique r x B : clique r B -> clique r (drop x B).
+Proof. intros H p q Hp Hq. apply In_filter_neq in Hp, Hq. apply H; tauto. Qed.
+
+(* after one complete order, every clique one point larger is carried *)
+Theorem order_complete r k0 nss maxk L r' nss' maxk' : vinv r ->
+  L = combs (S (S (S k0))) (seq 0 (length (simplicesOfOrder r (S k0)))) ->
+  cinvK r k0 nss maxk L r' nss' maxk' ->
+  complete_at r (S (S k0)) -> complete_at r' (S (S (S k0))).
+Proof.
+  intros Hv EL [Fl Dn _ _ _ _ _ _] Hc B HB LB Cl.
+  pose proof Fl as [V' E' L' B'].
+  pose proof (c_s r (b_c r (v_b r Hv))) as HS. pose proof (s_p r HS) as P.
+  assert (Cl0 : clique r B).
+  { intros p q Hp Hq Ne. apply (ext2b_edges r r' p q Hv V'); [split; assumption|]. now apply Cl. }
+  assert (Hfac : forall x, In x B -> exists f, containsSimplex r f = true /\ sameset (basisOf r f) (drop x B)).
+  { intros x Hx. apply Hc.
+    - now apply NoDup_filter.
+    - pose proof (filter_neq_length x B HB Hx) as Lx. unfold drop. lia.
+    - now apply drop_clique. }
+  set (l := simplicesOfOrder r (S k0)).
+  set (idxs := filter (fun i => subsetn (basisOf r (nth i l (NInt 0))) B) (seq 0 (length l))).
+  assert (Ecfs : cfs_of r k0 idxs = facets r k0 B).
+  { unfold cfs_of, idxs, facets. fold l. apply (map_nth_filter_seq (fun s => subsetn (basisOf r s) B)). }
+  pose proof (F_length r Hv k0 B HB LB Hfac) as LF.
+  assert (Li : length idxs = S (S (S k0))).
+  { rewrite <- LF, <- Ecfs. unfold cfs_of. now rewrite map_length. }
+  assert (Hin : In idxs L).
+  { rewrite EL. fold l. rewrite <- Li. unfold idxs. apply filter_in_combs. }
+  assert (Hj : forall j, In j idxs -> j < length l).
+  { intros j Hj. unfold idxs in Hj. apply filter_In in Hj. destruct Hj as [Hj _]. apply in_seq in Hj. lia. }
+  assert (Hk : S k0 < r_nord r).
+  { destruct idxs as [|j0 t] eqn:Ei; [discriminate|]. specialize (Hj j0 (or_introl eq_refl)).
+    unfold l, simplicesOfOrder in Hj. destruct (S k0 <? r_nord r) eqn:E; [now apply Nat.ltb_lt in E | simpl in Hj; lia]. }
+  assert (Hcl : isClosed (boundaryOperator r (S k0)) idxs = true).
+  { apply (closed_names r HS k0 Hk idxs Hj). rewrite Ecfs. apply F_closed; auto. }
+  destruct (Dn idxs Hin Hcl) as (s & Cs & Ss). rewrite Ecfs in Ss.
+  exists s. split; [exact Cs|].
+  pose proof (v_b r' V') as [C'' Bi]. apply contains_assoc in Cs. destruct Cs as (ks & j & As).
+  destruct (Bi s ks j As) as [_ Bk].
+  assert (Hks : 1 <= ks).
+  { destruct ks as [|ks]; [|lia]. exfalso. unfold faces in Ss. rewrite As in Ss.
+    destruct (facets r k0 B) as [|f t] eqn:EF; [discriminate|]. apply (proj2 (Ss f)). now left. }
+  intros p. rewrite (Bk Hks p). split.
+  - intros (u & Hu & Hp). apply Ss in Hu. pose proof Hu as Hu'. apply F_in in Hu'. destruct Hu' as [_ Hi].
+    apply Hi. rewrite <- (B' u); [exact Hp|]. eapply F_contains; eauto.
+  - intros Hp.
+    assert (Ex : exists x, In x B /\ x <> p).
+    { destruct B as [|a [|b t]]; simpl in LB; try lia. destruct (name_eq_dec a p) as [->|Na].
+      - exists b. split; [right; now left|]. intros ->. inversion HB as [|? ? Hn _]. apply Hn. now left.
+      - exists a. split; [now left | exact Na]. }
+    destruct Ex as (x & Hx & Nx). destruct (F_facet r Hv k0 B HB LB Hfac x Hx) as (f & Hf & Cf).
+    exists f. split; [now apply Ss|]. rewrite (B' f); [apply Cf; auto | eapply F_contains; eauto].
+Qed.
+
+(* ---------- the while loop ---------- *)
+Lemma nss_get_app_self nss k : nss_get k nss = None -> nss_get k (nss ++ [(k, [])]) = Some [].
+Proof.
+  induction nss as [|[k' s] t IH]; simpl; intros H; [now rewrite Nat.eqb_refl|].
+  destruct (k =? k'); [discriminate | now apply IH].
+Qed.
+
+Lemma order_le_points r s o j : vinv r -> assoc s (r_simp r) = Some (o, j) -> S o <= length (simplicesOfOrder r 0).
+Proof.
+  intros Hv A. pose proof (s_p r (c_s r (b_c r (v_b r Hv)))) as P.
+  rewrite <- (v_card r Hv s o j A). apply NoDup_incl_length; [apply basis_nodup; exact P|].
+  intros p Hp. destruct (a_basis_point r Hv s o j p A Hp) as (i & Ai). eapply order_listed; eauto.
+Qed.
+
+Record loopT (c : rep) (k maxk : nat) (r : rep) (nss : nssT) : Prop := {
+  lt_v : vinv r;
+  lt_e : ext2b c r;
+  lt_p : simplicesOfOrder r 0 = simplicesOfOrder c 0;
+  lt_c : forall n, 2 <= n -> n <= S k -> complete_at r n;
+  lt_o : forall s o j, assoc s (r_simp r) = Some (o, j) -> o <= maxk;
+  lt_r : forall j i, k <= j -> i < length (simplicesOfOrder r j) -> registered nss j i }.
+
+Lemma NoDup_firstn {A} n (l : list A) : NoDup l -> NoDup (firstn n l).
+Proof.
+  revert n. induction l as [|a t IH]; intros [|n] H; simpl; try constructor.
+  - inversion H as [|? ? Ha Ht]; subst. intros Hin. apply Ha. rewrite <- (firstn_skipn n t). apply in_or_app. now left.
+  - inversion H; subst. now apply IH.
+Qed.
+
+Lemma clique_incl r B B' : clique r B -> incl B' B -> clique r B'.
+Proof. intros H Hi p q Hp Hq. apply H; auto. Qed.
+
+(* no simplex of order k: no clique on k+1 or more points (given completeness at k+1 points) *)
+Lemma no_big_cliques r k : vinv r -> 1 <= k -> complete_at r (S k) ->
+  (forall s j, assoc s (r_simp r) = Some (k, j) -> False) ->
+  forall n, S k <= n -> complete_at r n.
+Proof.
+  intros Hv Hk Hc Hno n Hn B HB LB Cl. exfalso.
+  destruct (Hc (firstn (S k) B)) as (t & Ct & St).
+  - now apply NoDup_firstn.
+  - rewrite firstn_length. lia.
+  - apply (clique_incl r B); [exact Cl|]. intros x Hx. rewrite <- (firstn_skipn (S k) B). apply in_or_app. now left.
+  - apply contains_assoc in Ct. destruct Ct as (o & j & A).
+    assert (o = k); [|subst; eauto].
+    pose proof (v_card r Hv t o j A) as Lc. pose proof (s_p r (c_s r (b_c r (v_b r Hv)))) as P.
+    rewrite (NoDup_same_length (basisOf r t) (firstn (S k) B)) in Lc.
+    + rewrite firstn_length in Lc. lia.
+    + apply basis_nodup; exact P.
+    + now apply NoDup_firstn.
+    + exact St.
+Qed.
+
+Lemma cps_loop_complete c Mx : vinv c -> length (simplicesOfOrder c 0) <= Mx ->
+  forall fuel k maxk r nss, loopT c k maxk r nss -> 1 <= k -> k <= maxk + 2 -> maxk <= Mx -> Mx + 3 <= k + fuel ->
+  exists r', cps_loop fuel k maxk r nss = (r', Ok tt) /\ vinv r' /\ ext2b c r' /\ forall n, 2 <= n -> complete_at r' n.
+Proof.
+  intros Vc HMx. induction fuel as [|f IH]; intros k maxk r nss T Hk Hkm Hm Hf; [lia|].
+  pose proof T as [Vr Er Pr Cr Or Rr].
+  pose proof (s_p r (c_s r (b_c r (v_b r Vr)))) as P.
+  cbn [cps_loop]. destruct (maxk + 1 <? k) eqn:Estop.
+  - (* the loop ends *)
+    apply Nat.ltb_lt in Estop. exists r. split; [reflexivity|]. split; [exact Vr|]. split; [exact Er|].
+    intros n Hn. destruct (Nat.le_gt_cases n (S k)) as [Hle|Hgt]; [now apply Cr|].
+    apply (no_big_cliques r k Vr Hk); [apply Cr; lia| |lia].
+    intros s j A. pose proof (Or s k j A). lia.
+  - apply Nat.ltb_ge in Estop. replace (S k - 1) with k by lia.
+    assert (Hnone : (forall s j, assoc s (r_simp r) = Some (k, j) -> False) -> loopT c (S k) maxk r nss).
+    { intros Hno. constructor; auto.
+      - intros n Hn Hle. destruct (Nat.eq_dec n (S (S k))) as [->|Ne]; [|apply Cr; lia].
+        apply (no_big_cliques r k Vr Hk); [apply Cr; lia | exact Hno | lia].
+      - intros j i Hj Hi. apply Rr; [lia | exact Hi]. }
+    assert (Hempty : (forall i, registered nss k i -> False) -> forall s j, assoc s (r_simp r) = Some (k, j) -> False).
+    { intros Hno s j A. apply (Hno j). apply Rr; [lia|].
+      destruct P as [K Pm St L]. apply Pm in A. destruct A as [Hlt A].
+      rewrite simplicesOfOrder_idxk by (constructor; auto). apply nth_error_Some. congruence. }
+    destruct (nss_get k nss) as [[|i0 newk1]|] eqn:Eget.
+    + apply (IH (S k) maxk r nss); try lia. apply Hnone. apply Hempty.
+      intros i (s & G & Hin). rewrite Eget in G. injection G as <-. destruct Hin.
+    + (* an order to complete *)
+      destruct k as [|k0]; [lia|].
+      set (nss1 := match nss_get (S (S k0)) nss with Some _ => nss | None => nss ++ [(S (S k0), [])] end).
+      assert (R1 : forall j x, registered nss j x -> registered nss1 j x).
+      { intros j x H. unfold nss1. destruct (nss_get (S (S k0)) nss) eqn:E; [exact H | now apply nss_get_app_new]. }
+      destruct (cps_order_complete r k0 (i0 :: newk1) nss1 maxk Vr) as (r1 & nss' & maxk' & Eo & Ck).
+      * intros i Hi. destruct (Rr (S k0) i (le_n _) Hi) as (s & G & Hin). rewrite Eget in G. now injection G as <-.
+      * exact Or.
+      * intros i Hi. apply R1. apply Rr; [lia | exact Hi].
+      * unfold nss1. destruct (nss_get (S (S k0)) nss) eqn:E; [congruence | now rewrite nss_get_app_self].
+      * fold nss1. rewrite Eo.
+        pose proof Ck as [Fl Dn Od Rg Ky Ot Ls Mxx]. pose proof Fl as [V1 E1 L1 B1].
+        assert (E1b : ext2b r r1) by (split; assumption).
+        assert (T1 : loopT c (S (S k0)) maxk' r1 nss').
+        { constructor.
+          - exact V1.
+          - eapply ext2b_trans; eauto.
+          - rewrite (Ls 0) by lia. exact Pr.
+          - intros n Hn Hle. destruct (Nat.eq_dec n (S (S (S k0)))) as [->|Ne].
+            + eapply (order_complete r k0 nss1 maxk _ r1 nss' maxk' Vr eq_refl Ck). apply Cr; lia.
+            + intros B HB LB Cl. apply (carried_ext r r1 B E1b). apply (Cr n Hn ltac:(lia) B HB LB).
+              intros p q Hp Hq Ne'. apply (ext2b_edges r r1 p q Vr V1 E1b). now apply Cl.
+          - exact Od.
+          - intros j i Hj Hi. destruct (Nat.eq_dec j (S (S k0))) as [->|Ne]; [now apply Rg|].
+            apply Ot; [exact Ne|]. apply R1. apply Rr; [lia|]. rewrite <- (Ls j Ne). exact Hi. }
+        assert (Hm' : maxk <= maxk' /\ maxk' <= Mx).
+        { destruct Mxx as [->|[-> (s & j & As)]]; [lia|]. split; [lia|].
+          pose proof (order_le_points r1 s _ j V1 As) as Lp. rewrite (Ls 0) in Lp by lia. rewrite Pr in Lp. lia. }
+        apply (IH (S (S k0)) maxk' r1 nss' T1); lia.
+    + apply (IH (S k) maxk r nss); try lia. apply Hnone. apply Hempty.
+      intros i (s & G & Hin). rewrite Eget in G. discriminate.
+Qed.
+
+(* ---------- the seed of flagComplex ---------- *)
+Lemma nss_get_map (g : nat -> list nat) j : forall l, In j l -> nss_get j (map (fun k => (k, g k)) l) = Some (g j).
+Proof.
+  induction l as [|a t IH]; intros H; [destruct H|]. simpl. destruct (j =? a) eqn:E.
+  - apply Nat.eqb_eq in E. now subst.
+  - apply IH. destruct H as [->|H]; [rewrite Nat.eqb_refl in E; discriminate | exact H].
+Qed.
+
+Lemma nss_maxkey_ge nss k s : In (k, s) nss -> k <= nss_maxkey nss.
+Proof.
+  unfold nss_maxkey. induction nss as [|[k' s'] t IH]; intros H; [destruct H|]. simpl.
+  destruct H as [E|H]; [injection E as -> _; lia | specialize (IH H); lia].
+Qed.
+
+Lemma sOO_nonempty_lt r j i : i < length (simplicesOfOrder r j) -> j < r_nord r.
+Proof.
+  unfold simplicesOfOrder. destruct (j <? r_nord r) eqn:E; [intros _; now apply Nat.ltb_lt|]. simpl. lia.
+Qed.
+
+Lemma flag_seed_registered c j i : 1 <= j -> i < length (simplicesOfOrder c j) -> registered (flag_seed c) j i.
+Proof.
+  intros Hj Hi. unfold flag_seed, registered. cbn [nss_get].
+  destruct (j =? 1) eqn:E.
+  - apply Nat.eqb_eq in E. subst j. exists (seq 0 (length (simplicesOfOrder c 1))). split; [reflexivity|]. apply in_seq. lia.
+  - apply Nat.eqb_neq in E. pose proof (sOO_nonempty_lt c j i Hi) as Hl.
+    rewrite (nss_get_map (fun k => seq 0 (length (simplicesOfOrder c k))) j); [|apply in_seq; lia].
+    eexists. split; [reflexivity|]. apply in_seq. lia.
+Qed.
+
+Lemma flag_seed_maxkey c j : 1 <= j -> j < r_nord c -> j <= nss_maxkey (flag_seed c).
+Proof.
+  intros Hj Hl. destruct (Nat.eq_dec j 1) as [->|Ne].
+  - apply (nss_maxkey_ge _ 1 (seq 0 (length (simplicesOfOrder c 1)))). now left.
+  - apply (nss_maxkey_ge _ j (seq 0 (length (simplicesOfOrder c j)))). right.
+    apply in_map_iff. exists j. split; [reflexivity|]. apply in_seq. lia.
+Qed.
+
+Lemma edge_carried r p q : edge_of r p q -> carried r [p; q].
+Proof.
+  intros (e & He & Se). exists e. split; [|exact Se].
+  unfold simplicesOfOrder in He. destruct (1 <? r_nord r); [|destruct He].
+  unfold containsSimplex.
+Abort.
+
+Lemma cps_unfold r nss : nss <> [] ->
+  completePotentialSimplices r nss =
+  cps_loop (nss_maxkey nss + length (simplicesOfOrder r 0) + 4) 1 (nss_maxkey nss) r nss.
+Proof. destruct nss; [congruence | reflexivity]. Qed.
+
+(* C11: flagComplex never fails on a complex that meets the vertex-set reading (once its copy is
+   made), and afterwards every set of two or more points that are pairwise joined by an edge of the
+   source carries a simplex *)
+Theorem flagComplex_complete hp src uid hp1 c : vinv src -> copy_new hp (view_of src) uid = (hp1, c, Ok tt) ->
+  exists r', flagComplex hp src uid = (hp1, r', Ok tt) /\ vinv r' /\
+    forall B, NoDup B -> 2 <= length B -> clique src B -> carried r' B.
+Proof.
+  intros Hv E0. unfold flagComplex. rewrite E0.
+  destruct (copy_vinv hp src uid hp1 c Hv E0) as [Vc Bc].
+  pose proof (s_p c (c_s c (b_c c (v_b c Vc)))) as Pc.
+  set (seed := flag_seed c). set (Mx := Nat.max (nss_maxkey seed) (length (simplicesOfOrder c 0))).
+  assert (T : loopT c 1 (nss_maxkey seed) c seed).
+  { constructor.
+    - exact Vc.
+    - apply ext2b_refl. exact (c_s c (b_c c (v_b c Vc))).
+    - reflexivity.
+    - intros n Hn Hle B HB LB Cl. assert (Hn2 : n = 2) by lia. rewrite Hn2 in LB.
+      destruct B as [|p [|q [|x t]]]; simpl in LB; try lia.
+      assert (Ne : p <> q). { intros ->. inversion HB as [|? ? Hn' _]. apply Hn'. now left. }
+      destruct (Cl p q (or_introl eq_refl) (or_intror (or_introl eq_refl)) Ne) as (e & He & Se).
+      exists e. split; [|exact Se]. destruct (listed_assoc c Vc e 1 He) as (j & A). unfold containsSimplex. now rewrite A.
+    - intros s o j A. destruct o as [|o]; [lia|]. apply flag_seed_maxkey; [lia|].
+      destruct Pc as [K Pm St L]. apply Pm in A. tauto.
+    - intros j i Hj Hi. now apply flag_seed_registered. }
+  assert (Es : seed <> []) by (unfold seed, flag_seed; discriminate).
+  rewrite (cps_unfold c seed Es).
+  assert (H1 : length (simplicesOfOrder c 0) <= Mx) by (unfold Mx; lia).
+  assert (H2 : 1 <= nss_maxkey seed + 2) by lia.
+  assert (H3 : nss_maxkey seed <= Mx) by (unfold Mx; lia).
+  assert (H4 : Mx + 3 <= 1 + (nss_maxkey seed + length (simplicesOfOrder c 0) + 4)) by (unfold Mx; lia).
+  destruct (cps_loop_complete c Mx Vc H1 (nss_maxkey seed + length (simplicesOfOrder c 0) + 4) 1 (nss_maxkey seed) c seed
+              T (le_n 1) H2 H3 H4) as (r' & El & V' & E' & Call).
+  rewrite El. exists r'. split; [reflexivity|]. split; [exact V'|].
+  intros B HB LB Cl. apply (Call (length B) LB B HB eq_refl).
+  intros p q Hp Hq Ne. apply (ext2b_edges_fwd c r' p q Vc V' E').
+  destruct (Cl p q Hp Hq Ne) as (e & He & Se). exists e. split.
+  - rewrite (copy_listing_per_order hp src uid hp1 c (b_c src (v_b src Hv)) E0 1). exact He.
+  - intros z. rewrite <- (Se z). apply Bc.
+    rewrite <- (copy_listing_per_order hp src uid hp1 c (b_c src (v_b src Hv)) E0 1) in He.
+    destruct (listed_assoc c Vc e 1 He) as (j & A). unfold containsSimplex. now rewrite A.
+Qed.
+
+(* C11, both directions: the flag complex is the clique complex of the 1-skeleton of its source *)
+Theorem flagComplex_is_clique_complex hp src uid hp1 c : vinv src -> copy_new hp (view_of src) uid = (hp1, c, Ok tt) ->
+  exists r', flagComplex hp src uid = (hp1, r', Ok tt) /\ vinv r' /\
+    forall B, NoDup B -> 2 <= length B -> (carried r' B <-> clique src B).
+Proof.
+  intros Hv E0. destruct (flagComplex_complete hp src uid hp1 c Hv E0) as (r' & Ef & V' & Cc).
+  exists r'. split; [exact Ef|]. split; [exact V'|]. intros B HB LB. split; [|now apply Cc].
+  intros (t & Ct & St) p q Hp Hq Ne.
+  destruct (flagComplex_sound hp src uid hp1 r' Hv Ef) as [_ Sd].
+  apply (Sd t p q Ct); [now apply St | now apply St | exact Ne].
+Qed.
+
+(* "whenever all facets of a possible simplex are present the simplex is too" *)
+Theorem flagComplex_fills_facets hp src uid hp1 c : vinv src -> copy_new hp (view_of src) uid = (hp1, c, Ok tt) ->
+  exists r', flagComplex hp src uid = (hp1, r', Ok tt) /\
+    forall B, NoDup B -> 3 <= length B -> (forall x, In x B -> carried r' (drop x B)) -> carried r' B.
+Proof.
+  intros Hv E0. destruct (flagComplex_is_clique_complex hp src uid hp1 c Hv E0) as (r' & Ef & V' & Iff).
+  exists r'. split; [exact Ef|]. intros B HB LB Hfac. apply Iff; [exact HB | lia|].
+  intros p q Hp Hq Ne.
+  (* a third point x: p and q both lie in the facet that drops x *)
+  assert (Ex : exists x, In x B /\ x <> p /\ x <> q).
+  { destruct (three_members B HB LB) as (a & b & c0 & Ha & Hb & Hc & Nab & Nac & Nbc).
+    destruct (name_eq_dec a p) as [Eap|Nap]; [|destruct (name_eq_dec a q) as [Eaq|Naq]; [|exists a; auto]].
+    - subst a. destruct (name_eq_dec b q) as [Ebq|Nbq]; [|exists b; auto].
+      subst b. exists c0. auto.
+    - subst a. destruct (name_eq_dec b p) as [Ebp|Nbp]; [|exists b; auto].
+      subst b. exists c0. auto. }
+  destruct Ex as (x & Hx & Nxp & Nxq).
+  assert (Ld : 2 <= length (drop x B)).
+  { pose proof (filter_neq_length x B HB Hx) as L. unfold drop. lia. }
+  apply (proj1 (Iff (drop x B) (NoDup_filter _ HB) Ld) (Hfac x Hx)); try (apply In_filter_neq; split; auto). exact Ne.
+Qed.
